@@ -57,6 +57,28 @@ def r1_confinement(ctx):
     for bi, t in sites:
         r.check(bi not in f.reach, "no-action-unchanged", "with action = None the call is unreachable (multiplier unchanged)",
                 "with action = None apply_proposer_action is still reachable", seal.where(bi))
+    # with Some(action) the step is taken on every path: seal applies the action on every path, and apply_proposer_action reaches
+    # move_action_fee_multiplier on every path (a special case on another field of the action — the reward address, say — must not skip the vote)
+    def some_atom(x):
+        if x[0] == "discr" and x[1][0] == "param" and x[1][2] == "action":
+            return 1
+        return None
+    fs = Forcing(seal, some_atom)
+    for bi, t in sites:
+        wo = fs.reach_from(0, avoid=[bi])
+        r.check(not any(x in wo for x in seal.return_blocks()), "action=>applied", "with Some(action) seal applies it on every path", "a path through seal skips the proposer action although it is Some", seal.where(bi))
+    mvs = q.calls_to(apa, "move_action_fee_multiplier")
+    r.check(len(mvs) >= 1, "apply/moves", "apply_proposer_action moves the multiplier", "apply_proposer_action does not call move_action_fee_multiplier")
+    if mvs:
+        # a vote of exactly 0 moves nothing: skipping the call for it is the same behaviour, so the paths are followed under `delta != 0`
+        import re as _re
+        isz = lambda c: bool(_re.fullmatch(r"Eq\((0, \S*\.fee_multiplier_delta|\S*\.fee_multiplier_delta, 0)\)", c))
+        zero = [e for e, c, bi in q.pick_atoms(apa, isz) if isz(c)]
+        fz = q.force(apa, {z_: 0 for z_ in zero})
+        mvb = [bi for bi, t in mvs]
+        wo = set() if 0 in mvb else fz.reach_from(0, avoid=mvb)
+        r.check(not any(x in wo for x in apa.return_blocks()), "apply/every-path", "the multiplier step is taken on every path of apply_proposer_action",
+                "a path through apply_proposer_action returns without moving the fee multiplier: the vote of that block is ignored", apa.where(mvs[0][0]))
     # nothing else reachable from seal under None writes the multiplier: every writer body other than mv/constructors is a violation already
 
 
